@@ -396,4 +396,80 @@ def runFrom (v : Variant) (r : Rib) (h : History) : Rib :=
 
 def run (v : Variant) (h : History) : Rib := runFrom v Rib.empty h
 
+/-! ### Specifications (what the theorems in `Props/C01..C03` compare the model against) -/
+
+def safiOf (mc : Bool) : Safi := if mc then .multicast else .unicast
+
+/-- The abstract state of one key `(mc, p, m)`: the stored record and whether the global
+    withdrawn marker of `m` is set in the tree that holds `p`. -/
+structure Abs where
+  e : Option Val
+  down : Bool
+  deriving DecidableEq, Repr
+
+/-- What a query (include_withdrawn) reports for the key. -/
+def Abs.entry (s : Abs) : Option Val := s.e.map fun x => if s.down then setWithdrawn x else x
+
+def Rib.abs (r : Rib) (mc : Bool) (p : Prefix) (m : Mui) : Abs :=
+  ⟨(r.store mc).get p m, decide (m ∈ (r.store mc).wd p.fam)⟩
+
+/-- One UPDATE of the key's own source, per SAFI table. `overlapFix = false` is the code as written:
+    the withdrawal half is applied after the announcement half. -/
+def specUpd (v : Variant) (mc : Bool) (p : Prefix) (e : Option Val) : Upd → Option Val
+  | .malformed => e
+  | .ok a ann wd =>
+    let A := decide (⟨p, safiOf mc⟩ ∈ ann)
+    let W := decide (⟨p, safiOf mc⟩ ∈ wd)
+    if v.overlapFix then (if A then some (.active, a) else if W then e.map setWithdrawn else e)
+    else (if W then (if A then some (.withdrawn, a) else e.map setWithdrawn)
+          else if A then some (.active, a) else e)
+
+/-- A session-level withdrawal of the key's source. -/
+def specDown (v : Variant) (s : Abs) : Abs :=
+  if v.perRecordWithdraw then { s with e := s.e.map setWithdrawn } else { s with down := true }
+
+/-- The effect of one event on the abstract state of key `(mc, p, m)`. -/
+def specEv (v : Variant) (mc : Bool) (p : Prefix) (m : Mui) (s : Abs) : Ev → Abs
+  | .upd m' u => if m' = m then { s with e := specUpd v mc p s.e u } else s
+  | .down m' => if m' = m then specDown v s else s
+  | .downBulk ms => if m ∈ ms then specDown v s else s
+
+def specRun (v : Variant) (mc : Bool) (p : Prefix) (m : Mui) (h : History) : Abs :=
+  h.foldl (specEv v mc p m) ⟨none, false⟩
+
+/-- C01's specification, SAFI-blind and per RFC 4271 §4.3: scan the history; an UPDATE of `m`
+    naming `p` in its NLRI sets `(active, attrs)` (even if it also withdraws it); else one naming it
+    only in its withdrawn routes sets the status to withdrawn if an entry exists (keeping the
+    attributes); malformed UPDATEs and other sources' UPDATEs are skipped. -/
+def names (ns : List Nlri) (p : Prefix) : Bool := ns.any fun n => n.pfx = p && n.safi ≠ .unsupported
+
+def lastStep (p : Prefix) (m : Mui) (e : Option Val) : Ev → Option Val
+  | .upd m' (.ok a ann wd) =>
+    if m' = m then (if names ann p then some (.active, a) else if names wd p then e.map setWithdrawn else e) else e
+  | _ => e
+
+def last (h : History) (p : Prefix) (m : Mui) : Option Val := h.foldl (lastStep p m) none
+
+/-- Guards of the partial theorems. -/
+def Upd.noOverlap : Upd → Bool
+  | .malformed => true
+  | .ok _ ann wd => ann.all fun n => !(wd.contains n)
+
+def Ev.isUpd : Ev → Bool
+  | .upd .. => true
+  | _ => false
+
+def Ev.noOverlap : Ev → Bool
+  | .upd _ u => u.noOverlap
+  | _ => true
+
+/-- Does the event mention `p` in SAFI table `mc` (announced or withdrawn)? -/
+def Ev.mentions (mc : Bool) (p : Prefix) : Ev → Bool
+  | .upd _ (.ok _ ann wd) => ann.contains ⟨p, safiOf mc⟩ || wd.contains ⟨p, safiOf mc⟩
+  | _ => false
+
+/-- `p` is used with at most one of the two supported SAFIs in the whole history. -/
+def singleSafi (h : History) (p : Prefix) : Bool :=
+  !(h.any (Ev.mentions false p)) || !(h.any (Ev.mentions true p))
+
 end Rotonda.Rib
